@@ -75,11 +75,13 @@ def _decode_path(path):
 def _book2dict(book):
     res = {}
     for ws in book.worksheets:
-        s = res[ws.title.upper()] = {}
+        s = {}
         for k, cell in ws._cells.items():
             value = getattr(cell, 'value', None)
             if value is not None:
                 s[cell.coordinate] = value
+        if s:  # A sheet without contents holds nothing to compare.
+            res[ws.title.upper()] = s
     return res
 
 
